@@ -147,7 +147,7 @@ func TestVerifyRequest(t *testing.T) {
 
 		class := gen.Pick(t, []string{"honest", "flip-requestkey", "flip-namekeyid", "flip-ciphertext", "flip-signature",
 			"sig-from-other-client", "sig-from-other-blind", "whole-request-other-blind", "sig-malleated", "sig-extreme",
-			"blind-other", "blind-leading-zero", "blind-empty", "blind-plus-order", "blind-unusual-value", "clientkey-other", "clientkey-negated", "clientkey-malformed", "requestkey-malformed",
+			"blind-other", "blind-leading-zero", "blind-empty", "blind-plus-order", "blind-unusual-value", "sig-boundary-shifted-after-honest", "clientkey-other", "clientkey-negated", "clientkey-malformed", "requestkey-malformed",
 			"ciphertext-other-request", "requestkey-other-client", "namekeyid-extended", "namekeyid-shortened", "ciphertext-extended", "ciphertext-shortened",
 			"requestkey-replaced-signed-by-blinded-key", "contents-changed-signed-by-blinded-key"}, "class")
 		switch class {
@@ -249,6 +249,41 @@ func TestVerifyRequest(t *testing.T) {
 				t.Fatalf("harness: %v", err)
 			}
 			req.Signature = append(be48(rr), be48(ss)...)
+		case "sig-boundary-shifted-after-honest":
+			// an authentic signature whose r has a leading zero byte is verified first (same process, same attester); then the
+			// boundary between r and s is moved by one byte: r' = r[1:] || s[0], s' = 00 || s[1:]. The two (r, s) pairs have the
+			// same concatenation of minimal encodings, and the second one is not a valid signature.
+			dC := new(big.Int).SetBytes(a.ClientSecret)
+			rB := ref.ECDSABlindScalar(elliptic.P384(), new(big.Int).SetBytes(a.BlindKey), clientBlindCtx)
+			db := new(big.Int).Mod(new(big.Int).Mul(dC, rB), n)
+			bx, by := elliptic.P384().ScalarBaseMult(db.Bytes())
+			signer := &stdecdsa.PrivateKey{PublicKey: stdecdsa.PublicKey{Curve: elliptic.P384(), X: bx, Y: by}, D: db}
+			dg := sha512.Sum384(ref.EncodeRateLimitedRequest(req.RequestKey, req.NameKeyID, req.EncryptedTokenRequest, nil))
+			entropy := rt.NewDRBG(gen.Seed().Draw(t, "signEntropy"))
+			var sig []byte
+			for try := 0; try < 20000; try++ {
+				rr, ss, err := stdecdsa.Sign(entropy, signer, dg[:])
+				if err != nil {
+					t.Fatalf("harness: %v", err)
+				}
+				if rr.BitLen() <= 376 {
+					sig = append(be48(rr), be48(ss)...)
+					break
+				}
+			}
+			if sig == nil {
+				t.Skip("no signature with a short r found")
+			}
+			req.Signature = sig
+			if err := att.VerifyRequest(req, append([]byte{}, blind...), append([]byte{}, clientKey...), anon); err != nil {
+				rt.Fail(t, "C06/honest-rejected", "authentic request (re-signed with the client's blinded key; r has a leading zero byte) rejected: %v", err)
+				return
+			}
+			shifted := make([]byte, 96)
+			copy(shifted[:47], sig[1:48])
+			shifted[47] = sig[48]
+			copy(shifted[49:], sig[49:])
+			req.Signature = shifted
 		case "namekeyid-extended":
 			req.NameKeyID = append(req.NameKeyID, gen.Bytes(t, 1, 4, "extra")...)
 		case "namekeyid-shortened":
